@@ -145,6 +145,20 @@ Min(e) ==
             \o " " \o e.op \o " " \o
             (IF PrecOf(e.r[1]) <= Prec(e.op) THEN Paren(Min(e.r[1])) ELSE Min(e.r[1]))
 
+\* isar spelling: "<<" written as the operator call shiftLeft(a, b) (which the
+\* isar front-end expands to ((a) << (b))), everything else fully parenthesised
+RECURSIVE Isar(_), HasShl(_)
+Isar(e) ==
+    CASE e.k \in {"lit", "big"} -> LitText(e)
+      [] e.k = "name" -> "K" \o ToString(e.v)
+      [] e.k = "neg" -> "(-" \o Isar(e.l[1]) \o ")"
+      [] e.op = "<<" -> "shiftLeft(" \o Isar(e.l[1]) \o ", " \o Isar(e.r[1]) \o ")"
+      [] OTHER -> "(" \o Isar(e.l[1]) \o " " \o e.op \o " " \o Isar(e.r[1]) \o ")"
+HasShl(e) ==
+    CASE e.k \in {"lit", "big", "name"} -> FALSE
+      [] e.k = "neg" -> HasShl(e.l[1])
+      [] OTHER -> e.op = "<<" \/ HasShl(e.l[1]) \/ HasShl(e.r[1])
+
 NV == <<3, 10>>
 VARIABLE ast
 EInit == ast \in {e \in AST(Depth) : WellFormed(e)}
@@ -154,5 +168,5 @@ ESpec == EInit /\ [][UNCHANGED ast]_ast
 ValueSmall == Eval(ast) \in -100000000..100000000
 
 EDump == PrintT("EXPR " \o ToJson([min |-> Min(ast), full |-> Full(ast), value |-> Eval(ast),
-                                    names |-> NameVals]))
+                                    isar |-> IF HasShl(ast) THEN Isar(ast) ELSE "", names |-> NameVals]))
 =============================================================================
